@@ -241,13 +241,27 @@ def coqchk(prop_id):
 
     Returns dict(ok, axioms=[...], summary, wall)."""
     t0 = time.time()
+    # coqchk takes minutes (for C03 / C04, which load every format development, much longer): it runs on a private snapshot of
+    # the compiled files, taken under the lock, so that it neither blocks nor is disturbed by a rebuild
+    import shutil
+    import tempfile
+    snap = tempfile.mkdtemp(prefix='vcoqchk')
     lock = open(os.path.join(paths.COQ, '.lock'), 'w')
     fcntl.flock(lock, fcntl.LOCK_SH)
     try:
-        rc, out = _run(['timeout', '3000', 'coqchk', '-o', '-silent', '-R', '.', 'BSE', 'BSE.Properties.%s' % prop_id], paths.COQ, 3100)
+        for root, _dirs, files in os.walk(paths.COQ):
+            rel = os.path.relpath(root, paths.COQ)
+            for f in files:
+                if f.endswith('.vo'):
+                    os.makedirs(os.path.join(snap, rel), exist_ok=True)
+                    shutil.copy2(os.path.join(root, f), os.path.join(snap, rel, f))
     finally:
         fcntl.flock(lock, fcntl.LOCK_UN)
         lock.close()
+    try:
+        rc, out = _run(['timeout', '6000', 'coqchk', '-o', '-silent', '-R', '.', 'BSE', 'BSE.Properties.%s' % prop_id], snap, 6100)
+    finally:
+        shutil.rmtree(snap, ignore_errors=True)
     tail = out[out.rfind('CONTEXT SUMMARY'):] if 'CONTEXT SUMMARY' in out else out[-1500:]
     m = re.search(r'\* Axioms:\s*(.*?)\n\s*\n\* Constants', tail, re.S)
     axioms = []
